@@ -5,6 +5,7 @@ rejection classes.  Used by Props/C02, C03.
 -/
 import CoapLite.Model.CodecAbs
 import CoapLite.Lemmas.CodecFwd
+import CoapLite.Lemmas.CodecInvBasic
 
 namespace CoapLite
 namespace Codec
@@ -15,39 +16,115 @@ theorem enc_dec (b : Bytes) (p : Packet) (h : dec b = .ok p) :
       (b = pre ∨
        (b = pre ++ [0xFF] ∧ p.payload = []) ∨
        (∃ pl, b = pre ++ 0xFF :: pl ∧ p.payload = pl ∧ b[1]? = some 0)) := by
-  sorry
+  obtain ⟨ob, he, hb, hc, _⟩ := Inv.dec_shape b p h
+  refine ⟨_, Inv.enc_none_eq p ob he, ?_⟩
+  rcases hb with ⟨hb, hp⟩ | hb
+  · left
+    have : sent p = false := by simp [sent, hp]
+    simp [this, hb]
+  · by_cases hp : p.payload = []
+    · right; left
+      have : sent p = false := by simp [sent, hp]
+      rw [hp] at hb
+      simp [this, hb, hp]
+    · by_cases hcode : p.header.code = .Empty
+      · right; right
+        have : sent p = false := by simp [sent, hcode]
+        refine ⟨p.payload, ?_, rfl, hc.2 hcode⟩
+        simp [this, hb]
+      · left
+        have : sent p = true := by simp [sent, hcode, hp]
+        simp [this, hb]
 
 theorem enc_dec_exact (b : Bytes) (p : Packet) (h : dec b = .ok p)
     (hp : p.payload ≠ []) (hc : b[1]? ≠ some 0) : enc p none = .ok b := by
-  sorry
+  obtain ⟨pre, he, rfl | ⟨_, h0⟩ | ⟨pl, _, _, h1⟩⟩ := enc_dec b p h
+  · exact he
+  · exact absurd h0 hp
+  · exact absurd h1 hc
 
 theorem dec_injective (b₁ b₂ : Bytes) (p : Packet) (h₁ : dec b₁ = .ok p) (h₂ : dec b₂ = .ok p) :
     (∃ pre, enc p none = .ok pre ∧ pre <+: b₁ ∧ pre <+: b₂) ∧
     (p.payload ≠ [] → b₁ = b₂) := by
-  sorry
+  constructor
+  · obtain ⟨pre, he, hb1⟩ := enc_dec b₁ p h₁
+    obtain ⟨pre', he', hb2⟩ := enc_dec b₂ p h₂
+    rw [he] at he'
+    simp only [Res.ok.injEq] at he'
+    subst he'
+    refine ⟨pre, he, ?_, ?_⟩
+    · rcases hb1 with rfl | ⟨rfl, _⟩ | ⟨pl, rfl, _, _⟩
+      · exact List.prefix_refl _
+      · exact List.prefix_append _ _
+      · exact List.prefix_append _ _
+    · rcases hb2 with rfl | ⟨rfl, _⟩ | ⟨pl, rfl, _, _⟩
+      · exact List.prefix_refl _
+      · exact List.prefix_append _ _
+      · exact List.prefix_append _ _
+  · intro hp
+    obtain ⟨ob, he, hb1, _, _⟩ := Inv.dec_shape b₁ p h₁
+    obtain ⟨ob', he', hb2, _, _⟩ := Inv.dec_shape b₂ p h₂
+    rw [he] at he'
+    simp only [Res.ok.injEq] at he'
+    subst he'
+    rcases hb1 with ⟨_, h0⟩ | hb1
+    · exact absurd h0 hp
+    rcases hb2 with ⟨_, h0⟩ | hb2
+    · exact absurd h0 hp
+    rw [hb1, hb2]
 
 theorem dec_never_panics (b : Bytes) : dec b ≠ .panic := by
-  sorry
+  unfold dec
+  split
+  · simp only
+    split
+    · simp
+    · split
+      · simp
+      · split
+        · simp
+        · simp
+        · rename_i hd
+          exact absurd hd (Inv.decOpts_ne_panic _ _ _)
+  · simp
 
 theorem dec_wf (b : Bytes) (p : Packet) (h : dec b = .ok p) : PktWF p := by
-  sorry
+  obtain ⟨_, _, _, _, hwf⟩ := Inv.dec_shape b p h
+  exact hwf
 
 theorem dec_sound (b : Bytes) (p : Packet) (h : dec b = .ok p) :
     b = wire (toMsg p) ∨ b = wire (toMsg p) ++ [0xFF] ∨
       (∃ pl, b = wire (toMsg p) ++ 0xFF :: pl ∧ b[1]? = some 0) := by
-  sorry
+  obtain ⟨pre, he, hb⟩ := enc_dec b p h
+  rw [enc_eq_wire p (dec_wf b p h)] at he
+  simp only [Res.ok.injEq] at he
+  subst he
+  rcases hb with hb | ⟨hb, _⟩ | ⟨pl, hb, _, h1⟩
+  · exact Or.inl hb
+  · exact Or.inr (Or.inl hb)
+  · exact Or.inr (Or.inr ⟨pl, hb, h1⟩)
 
 theorem reject_short (b : Bytes) (h : b.length < 4) : dec b = .err .invalidHeader := by
-  sorry
+  match b, h with
+  | [], _ => rfl
+  | [_], _ => rfl
+  | [_, _], _ => rfl
+  | [_, _, _], _ => rfl
+  | _ :: _ :: _ :: _ :: _, h => simp at h; omega
 
 theorem reject_tkl (b0 b1 b2 b3 : UInt8) (rest : Bytes) (h : (0x0F &&& b0).toNat ≥ 9) :
     dec (b0 :: b1 :: b2 :: b3 :: rest) = .err .invalidTokenLength := by
-  sorry
+  simp only [dec]
+  rw [if_pos (by omega)]
 
 theorem reject_truncated_token (b0 b1 b2 b3 : UInt8) (rest : Bytes)
     (h : rest.length < (0x0F &&& b0).toNat) :
     (dec (b0 :: b1 :: b2 :: b3 :: rest)).isErr = true := by
-  sorry
+  simp only [dec]
+  by_cases h8 : (0x0F &&& b0).toNat > 8
+  · rw [if_pos h8]; rfl
+  · rw [if_neg h8, if_pos (by omega)]; rfl
+
 
 theorem reject_nibble15 (b0 b1 b2 b3 : UInt8) (tok : Bytes) (os : List (Nat × Bytes))
     (hb : UInt8) (tail : Bytes)
@@ -55,7 +132,20 @@ theorem reject_nibble15 (b0 b1 b2 b3 : UInt8) (tok : Bytes) (os : List (Nat × B
     (hos : (os.map (·.1)).Pairwise (· ≤ ·) ∧ ∀ o ∈ os, o.1 ≤ 65535 ∧ o.2.length ≤ 65804)
     (h15 : hb.toNat / 16 = 15 ∨ hb.toNat % 16 = 15) (hff : hb ≠ 255) :
     (dec (b0 :: b1 :: b2 :: b3 :: (tok ++ wireOpts 0 os ++ (hb :: tail)))).isErr = true := by
-  sorry
+  apply Inv.dec_framed_err _ _ _ _ _ _ _ htk ht hos
+  intro acc'
+  cases h1 : rdExt true (hb.toNat / 16) tail with
+  | err e => rw [Inv.decOpts_cons_err1 _ _ _ _ hff h1]; rfl
+  | panic => exact absurd h1 (Inv.rdExt_ne_panic _ _ _)
+  | ok r =>
+    obtain ⟨delta, r1⟩ := r
+    rcases h15 with h | h
+    · rw [h] at h1
+      obtain ⟨e, he⟩ := Inv.rdExt_15 true tail
+      rw [he] at h1; simp at h1
+    · obtain ⟨e, he⟩ := Inv.rdExt_15 false r1
+      rw [← h] at he
+      rw [Inv.decOpts_cons_err2 _ _ _ _ hff h1 he]; rfl
 
 theorem reject_truncated_ext (b0 b1 b2 b3 : UInt8) (tok : Bytes) (os : List (Nat × Bytes))
     (hb : UInt8) (tail : Bytes)
@@ -64,7 +154,16 @@ theorem reject_truncated_ext (b0 b1 b2 b3 : UInt8) (tok : Bytes) (os : List (Nat
     (hff : hb ≠ 255)
     (hshort : tail.length < extBytesOf (hb.toNat / 16) + extBytesOf (hb.toNat % 16)) :
     (dec (b0 :: b1 :: b2 :: b3 :: (tok ++ wireOpts 0 os ++ (hb :: tail)))).isErr = true := by
-  sorry
+  apply Inv.dec_framed_err _ _ _ _ _ _ _ htk ht hos
+  intro acc'
+  cases h1 : rdExt true (hb.toNat / 16) tail with
+  | err e => rw [Inv.decOpts_cons_err1 _ _ _ _ hff h1]; rfl
+  | panic => exact absurd h1 (Inv.rdExt_ne_panic _ _ _)
+  | ok r =>
+    obtain ⟨delta, r1⟩ := r
+    have hlen := Inv.rdExt_len h1
+    obtain ⟨e, he⟩ := Inv.rdExt_short (d := false) (nib := hb.toNat % 16) (bs := r1) (by omega)
+    rw [Inv.decOpts_cons_err2 _ _ _ _ hff h1 he]; rfl
 
 theorem reject_truncated_value (b0 b1 b2 b3 : UInt8) (tok : Bytes) (os : List (Nat × Bytes))
     (hb : UInt8) (tail : Bytes) (delta len : Nat) (r1 r2 : Bytes)
@@ -73,7 +172,12 @@ theorem reject_truncated_value (b0 b1 b2 b3 : UInt8) (tok : Bytes) (os : List (N
     (hff : hb ≠ 255) (hd : rdExt true (hb.toNat / 16) tail = .ok (delta, r1))
     (hl : rdExt false (hb.toNat % 16) r1 = .ok (len, r2)) (hshort : r2.length < len) :
     (dec (b0 :: b1 :: b2 :: b3 :: (tok ++ wireOpts 0 os ++ (hb :: tail)))).isErr = true := by
-  sorry
+  apply Inv.dec_framed_err _ _ _ _ _ _ _ htk ht hos
+  intro acc'
+  rw [Inv.decOpts_cons _ _ _ _ hff hd hl]
+  by_cases hn : (os.getLast?.map (·.1)).getD 0 + delta > 65535
+  · rw [if_pos hn]; rfl
+  · rw [if_neg hn, if_pos (by omega)]; rfl
 
 theorem reject_number_overflow (b0 b1 b2 b3 : UInt8) (tok : Bytes) (os : List (Nat × Bytes))
     (hb : UInt8) (tail : Bytes) (delta : Nat) (r : Bytes)
@@ -82,7 +186,14 @@ theorem reject_number_overflow (b0 b1 b2 b3 : UInt8) (tok : Bytes) (os : List (N
     (hff : hb ≠ 255) (hd : rdExt true (hb.toNat / 16) tail = .ok (delta, r))
     (hover : (os.getLast?.map (·.1)).getD 0 + delta > 65535) :
     (dec (b0 :: b1 :: b2 :: b3 :: (tok ++ wireOpts 0 os ++ (hb :: tail)))).isErr = true := by
-  sorry
+  apply Inv.dec_framed_err _ _ _ _ _ _ _ htk ht hos
+  intro acc'
+  cases h2 : rdExt false (hb.toNat % 16) r with
+  | err e => rw [Inv.decOpts_cons_err2 _ _ _ _ hff hd h2]; rfl
+  | panic => exact absurd h2 (Inv.rdExt_ne_panic _ _ _)
+  | ok x =>
+    obtain ⟨len, r2⟩ := x
+    rw [Inv.decOpts_cons _ _ _ _ hff hd h2, if_pos hover]; rfl
 
 end Codec
 end CoapLite
